@@ -237,8 +237,12 @@ Example C03_example_der :
   parse_sig [48;6; 2;1;255; 2;1;128] = None.
 Proof. vm_compute. repeat split; reflexivity. Qed.
 
+Definition toy_p1363_sig : bytes :=
+  [0;1;2;3;4] ++ repeat 0 31 ++ [7] ++ repeat 0 30 ++ [1;44].
+
 Example C03_example_p1363 :
-  exists sig, ecdsa_frame (toy_key P1363 VLegacy) 7 300 = Some sig /\ length sig = 69%nat /\
-              ecdsa_verify toyH toy_raw (toy_key P1363 VLegacy) sig [9] = Ok tt /\
-              ecdsa_verify toyH toy_raw (toy_key P1363 VLegacy) (sig ++ [0]) [9] = Err.
-Proof. eexists. vm_compute. repeat split; reflexivity. Qed.
+  ecdsa_frame (toy_key P1363 VLegacy) 7 300 = Some toy_p1363_sig /\ length toy_p1363_sig = 69%nat /\
+  ecdsa_verify toyH toy_raw (toy_key P1363 VLegacy) toy_p1363_sig [9] = Ok tt /\
+  ecdsa_verify toyH toy_raw (toy_key P1363 VLegacy) (toy_p1363_sig ++ [0]) [9] = Err /\
+  ecdsa_verify toyH toy_raw (toy_key P1363 VLegacy) (tl toy_p1363_sig) [9] = Err.
+Proof. vm_compute. repeat split; reflexivity. Qed.
